@@ -11,6 +11,8 @@
   The harness marks the Flush lines of a bytes writer after its first successful Flush with a tag
   ending in `later-epoch` (known finding F15 is keyed on it).
   A trailing token starting with '@' (history tag of the harness) is ignored.
+  Requests above 2^32 (`wr malloc`, capacity of `wr new bytes`) are refused: model column `out-of-range`,
+  verdict `na`, state untouched.
   model column: the writer model (Model/Writer) with mcache's pow2 capacities;
   verdict: the log spec (Spec/WriterLog) evaluated on the implementation's results.
 -/
@@ -190,6 +192,17 @@ def wrModel (s : WrState) (op : List String) : String × Wr :=
     (flushStr s.bytes w r, r.2)
   | _ => ("bad-op", w)
 
+/-- requests above 2^32 are refused (verdict `na`, nothing is materialised): far inside the range of
+    the theorems (2^44, `C05.GoRange`), far above anything the harness generates (≤ 70000); beyond
+    2^45 the real code panics in mcache / spins, which the model does not mirror -/
+def drvLimit : Nat := 4294967296
+
+def opTooBig : List String → Bool
+  | ["malloc", n] => match n.toInt? with
+    | some n => n.toNat > drvLimit
+    | none => false
+  | _ => false
+
 def stripTag (args : List String) : List String :=
   match args.getLast? with
   | some t => if t.startsWith "@" then args.dropLast else args
@@ -215,6 +228,7 @@ def wrStep (st : Option WrState) (args : List String) (impl : String) :
         match cap.toNat? with
         | some c =>
           if c < init.length then (st, "bad-op", "na") else
+          if c > drvLimit then (st, "out-of-range", "na") else
           (some ⟨Wr.newBytes init (List.replicate (c - init.length) 0), Log.new (fun _ => none) init, true⟩,
            "ok", "ok")
         | none => (st, "bad-op", "na")
@@ -222,6 +236,7 @@ def wrStep (st : Option WrState) (args : List String) (impl : String) :
     match st with
     | none => (st, "bad-op", "na")
     | some s =>
+      if opTooBig op then (st, "out-of-range", "na") else
       let (m, w') := wrModel s op
       let (v, l') := wrVerdict s op implToks
       (some { s with w := w', log := l' }, m, v)
